@@ -320,3 +320,6 @@ def run(rep, prog, thorough):
     check_m2c00(rep, prog)
     check_no_static_plugin_imports(rep, prog)
     check_P_option(rep, prog)
+    # containment of a failing user-data plug-in (rules shared with C04)
+    from .c04 import check_parse
+    check_parse(rep, prog)
